@@ -83,7 +83,7 @@ RECURSIVE AllocFrom(_, _, _, _, _, _)
 AllocFrom(Q, st, indices, n, size, best) ==
     IF n > Len(indices) THEN <<st, size>>
     ELSE LET x == indices[n]
-             r == UntilFits(Q, st, x, Neigh(Q, x), 0, 0)
+             r == UntilFits(Q, st, x, st.nb[x], 0, 0)
              st1 == [st EXCEPT !.addr[x] = r[1], !.endaddr[x] = r[1] + Q[x].size, !.pred[x] = r[2], !.turn[x] = n]
              size1 == Max2(size, r[1] + Q[x].size)
          IN IF best # -1 /\ size1 > best THEN <<st1, size1>>             \* worse than the best known: break
@@ -102,7 +102,7 @@ AddPredecessorTurns(st, list, x) == Chain(st, AddTurn(list, st.turn[x]), x)
 RECURSIVE AddAll(_, _, _, _)
 AddAll(st, list, nb, n) == IF n > Len(nb) THEN list ELSE AddAll(st, AddPredecessorTurns(st, list, nb[n]), nb, n + 1)
 TurnList(Q, st) == LET m == Bottleneck(Q, st, 2, 1)
-                   IN AddAll(st, AddPredecessorTurns(st, <<>>, m), Neigh(Q, m), 1)
+                   IN AddAll(st, AddPredecessorTurns(st, <<>>, m), st.nb[m], 1)
 NonNb(Q, st, indices, tl) == LET m == Bottleneck(Q, st, 2, 1)
                              IN SelectSeq(tl, LAMBDA t : ~LiveTogether(Q[m], Q[indices[t]]))
 Swap(ind, a, b) == [ind EXCEPT ![a] = ind[b], ![b] = ind[a]]
@@ -111,7 +111,7 @@ RECURSIVE MoreOf(_, _, _, _)
 MoreOf(st, list, nb, n) == IF n > Len(nb) THEN list ELSE MoreOf(st, AddTurn(list, st.turn[nb[n]]), nb, n + 1)
 RECURSIVE More(_, _, _, _, _, _)
 More(Q, st, ind, list, nonnb, n) == IF n > Len(nonnb) THEN list
-                                    ELSE More(Q, st, ind, MoreOf(st, list, Neigh(Q, ind[nonnb[n]]), 1), nonnb, n + 1)
+                                    ELSE More(Q, st, ind, MoreOf(st, list, st.nb[ind[nonnb[n]]], 1), nonnb, n + 1)
 (* set of orderings attempt_bottleneck_fix may leave in `indices` *)
 FirstSwaps(Q, st, ind) == LET tl == TurnList(Q, st)
                           IN IF Len(tl) < 2 THEN {ind}            \* only reached when Guarded
@@ -127,7 +127,8 @@ WouldRaise(Q, st) == Len(TurnList(Q, st)) < 2
 (* ---- the state machine ---------------------------------------------------------------------- *)
 H0(Q) == [addr |-> [x \in Dom(Q) |-> 0], endaddr |-> [x \in Dom(Q) |-> 0], pred |-> [x \in Dom(Q) |-> 0],
           turn |-> [x \in Dom(Q) |-> 0], indices |-> <<>>, best_indices |-> <<>>, best_size |-> -1,
-          best_addr |-> <<>>, i |-> 0, last |-> 0, impr |-> 0, iters |-> 0]
+          best_addr |-> <<>>, i |-> 0, last |-> 0, impr |-> 0, iters |-> 0,
+          nb |-> [x \in Dom(Q) |-> Neigh(Q, x)], minreq |-> MinRequired(Q)]   \* static: neighbours, min_required_size
 Fields(st) == [addr |-> st.addr, endaddr |-> st.endaddr, pred |-> st.pred, turn |-> st.turn]
 With(st, f) == [st EXCEPT !.addr = f.addr, !.endaddr = f.endaddr, !.pred = f.pred, !.turn = f.turn]
 RECURSIVE MaxEnd(_, _, _)
@@ -148,7 +149,7 @@ Start == /\ phase = "build" /\ Len(R) > 0
                 r == AllocIndices(R, H0(R), ind, -1)
             IN /\ h' = [With(H0(R), Fields(r[1])) EXCEPT !.indices = ind, !.best_indices = ind, !.best_size = r[2],
                                                         !.best_addr = r[1].addr]
-               /\ phase' = IF r[2] > MinRequired(R) THEN "search" ELSE "done"
+               /\ phase' = IF r[2] > h'.minreq THEN "search" ELSE "done"
          /\ UNCHANGED R
 LoopCond == (h.best_size > par.limit /\ h.i < par.maxit) \/ (h.i - h.last < MinImprove)
 Iterate == /\ phase = "search" /\ LoopCond
@@ -162,7 +163,7 @@ Iterate == /\ phase = "search" /\ LoopCond
                                                !.impr = IF new < h.best_size THEN h.impr + 1 ELSE h.impr,
                                                !.best_size = new, !.indices = ind, !.best_indices = ind,
                                                !.best_addr = r[1].addr, !.iters = h.iters + 1]
-                        IN IF new <= MinRequired(R)
+                        IN IF new <= h.minreq
                            THEN h' = st2 /\ phase' = "done"                                   \* target reached
                            ELSE h' = [st2 EXCEPT !.i = h.i + 1] /\ phase' = "search"
                    ELSE h' = [st EXCEPT !.indices = h.best_indices, !.i = h.i + 1, !.iters = h.iters + 1]
